@@ -17,15 +17,17 @@ Families
                   atom, a particle built from no atom, a two-residue mapping, unmapped heavy atoms and hydrogens, overlapping
                   placements; linear / branched / cyclic residue sequences, identity / reversed / sparse shuffled node keys
  modifications    the same universe plus modification mappings: terminus-like ones that change a particle and re-weight it
-                  (MT, MN, an optional two-name mapping MN+MT preferred by the cover), one that adds a particle, replaces a
-                  block interaction and has an unlabelled from-node (MP), one spanning two residues (MX), one that only creates
-                  a particle and is therefore ordered by its lowest atom (MS), one without mapping (MU); molecules carry the
+                  (MT, MN - whose unlabelled from-node overlaps MT on a residue carrying both -, an optional two-name mapping
+                  MN+MT preferred by the cover), one that adds a particle and replaces a block interaction (MP), one spanning two residues (MX), one that only creates
+                  a particle and is therefore ordered by its lowest atom (MS), two without mapping (MU; MV = the atoms of MT under
+                  another label, so that only the label tells where MT applies); molecules carry the
                   'modifications' / 'PTM_atom' attributes as CanonicalizeModifications leaves them (whole residue labelled)
  real             harness/c01_real.py: the martinize2 front end in-process on the tier-0 structures, shipped force fields and
                   mappings, projected generically, judged by the same operators"""
 import logging
 import multiprocessing as mp
 import random
+import shutil
 
 from . import common, tlc
 
@@ -299,15 +301,19 @@ def _judge(shard):
     work = tlc.scratch('c01_')
     slim = [{k: e[k] for k in e if k not in ('numbering', 'err', 'inexact')} for e in shard]
     tf = tlc.write_json(work, 'trace.json', slim)
-    res = tlc.run('Trace_Mapping', 'SPECIFICATION Spec\n', dump=True, env={'TRACE_FILE': tf}, workdir=work, workers=1, timeout=3400)
-    return res.distinct, res.generated, {st['tid']: st['verdict'] for st in res.states() if st['verdict'] != 'pending'}
+    try:
+        res = tlc.run('Trace_Mapping', 'SPECIFICATION Spec\n', dump=True, env={'TRACE_FILE': tf}, workdir=work, workers=1, timeout=3400)
+        return res.distinct, res.generated, {st['tid']: st['verdict'] for st in res.states() if st['verdict'] != 'pending'}
+    finally:
+        shutil.rmtree(work, ignore_errors=True)       # pool workers do not run the atexit clean-up of tlc.scratch
 
 
-def judge_events(events, ev, vd, kinds=('map', 'avg')):
+def judge_events(events, ev, vd, kinds=('map', 'avg'), shards=None, outs=None):
     events = [e for e in events if e['kind'] in kinds]
-    shards = common.chunks(events, tlc.NCPU)
-    with mp.Pool(len(shards)) as pool:
-        outs = pool.map(_judge, shards)
+    if outs is None:
+        shards = common.chunks(events, tlc.NCPU)
+        with mp.Pool(len(shards)) as pool:
+            outs = pool.map(_judge, shards)
     stats = {}
     for shard, (d, g, verdicts) in zip(shards, outs):
         ev.states += d
@@ -341,6 +347,7 @@ XMODS = {
     'MN': ('RA', [('XN', 'H', 'A1')]),
     'MP': ('RB', [('XP', 'P', 'B3'), ('XO', 'O', 'XP')]),
     'MU': ('RD', [('XU', 'N', 'D1')]),                     # no mapping known
+    'MV': ('RA', [('XT', 'O', 'A2')]),                     # no mapping known; same atoms as MT under another label
     'MS': ('RE', [('XS', 'C', 'E1')]),
 }
 # modification mappings: names, from-nodes [(atomname, labelled with the modification?, PTM atom?, element or None)],
@@ -348,8 +355,9 @@ XMODS = {
 XMODMAPS = [
     {'names': ('MT',), 'from': [('A2', True, False, None), ('XT', True, True, 'O')], 'fedges': [('A2', 'XT')],
      'to': [('P2', False, None, 'Qt')], 'tedges': [], 'inters': [], 'w': [('A2', 'P2', 1), ('XT', 'P2', 1)]},
-    {'names': ('MN',), 'from': [('A1', True, False, None), ('XN', True, True, 'H')], 'fedges': [('A1', 'XN')],
-     'to': [('P1', False, None, 'Qn')], 'tedges': [], 'inters': [], 'w': [('A1', 'P1', 2), ('XN', 'P1', 0)]},
+    {'names': ('MN',), 'from': [('A1', True, False, None), ('XN', True, True, 'H'), ('A2', False, False, None)],
+     'fedges': [('A1', 'XN'), ('A1', 'A2')],
+     'to': [('P1', False, None, 'Qn')], 'tedges': [], 'inters': [], 'w': [('A1', 'P1', 2), ('XN', 'P1', 0), ('A2', 'P1', 0)]},
     {'names': ('MN', 'MT'), 'optional': True,
      'from': [('A1', True, False, None), ('XN', True, True, None), ('A2', True, False, None), ('XT', True, True, None)],
      'fedges': [('A1', 'XN'), ('A1', 'A2'), ('A2', 'XT')],
@@ -358,7 +366,7 @@ XMODMAPS = [
      'w': [('A1', 'P1', 1), ('XN', 'P1', 1), ('A2', 'P2', 1), ('XT', 'P2', 1)]},
     {'names': ('MP',), 'from': [('B2', False, False, None), ('B3', True, False, None), ('XP', True, True, 'P'), ('XO', True, True, 'O')],
      'fedges': [('B2', 'B3'), ('B3', 'XP'), ('XP', 'XO')],
-     'to': [('BB', False, None, None), ('SC', False, None, 'SNx'), ('PO', True, 'Qa', None)], 'tedges': [('SC', 'PO')],
+     'to': [('BB', False, None, None), ('SC', False, None, 'SNx'), ('PO', True, 'Qa', None)], 'tedges': [('SC', 'PO'), ('BB', 'PO')],
      'inters': [('bonds', ['BB', 'SC'], ['1', '0.41', '901']), ('bonds', ['SC', 'PO'], ['1', '0.47', '1250'])],
      'w': [('B2', 'BB', 3), ('B3', 'SC', 1), ('XP', 'PO', 1), ('XO', 'PO', 1)]},
     {'names': ('MX',), 'from': [('C3', True, False, None), ('XL', True, True, 'S'), ('D2', True, False, None)],
@@ -376,8 +384,11 @@ def make_molecule_x(rng):
     attribute), ptm}], bonds, node keys, insertion order."""
     n = rng.randint(2, 6)
     seq = []
+    # one run in eight: several residues whose modification only creates a particle (several placements before the first block)
+    rich = rng.random() < 0.125
+    types = ['RE', 'RE', 'RE', 'RA', 'RB', 'RD'] if rich else ['RA', 'RA', 'RB', 'RB', 'RC', 'RD', 'RD', 'RE', 'RF', 'RZ']
     while len(seq) < n:
-        t = rng.choice(['RA', 'RA', 'RB', 'RB', 'RC', 'RD', 'RD', 'RE', 'RF', 'RZ'])
+        t = rng.choice(types)
         seq.append(t)
         if t == 'RF' and rng.random() < 0.8:
             seq.append('RG')
@@ -387,12 +398,12 @@ def make_molecule_x(rng):
     for t in seq:
         m = []
         if t == 'RA':
-            m = rng.choice([[], ['MT'], ['MN'], ['MN', 'MT'], ['MT', 'MN'], ['MT']])
+            m = rng.choice([[], ['MT'], ['MN'], ['MN', 'MT'], ['MT', 'MN'], ['MT'], ['MV']])
         elif t == 'RB' and rng.random() < 0.55:
             m = ['MP']
         elif t == 'RD' and rng.random() < 0.2:
             m = ['MU']
-        elif t == 'RE' and rng.random() < 0.6:
+        elif t == 'RE' and rng.random() < (0.9 if rich else 0.6):
             m = ['MS']
         resmods.append(list(m))
     cross = None
@@ -424,7 +435,7 @@ def make_molecule_x(rng):
                 ptm += [(nm, el, to) for nm, el, to in XMODS[m][1]]
         if cross and cross[0] == i:
             ptm.append(('XL', 'S', 'C3'))
-        at_end = rng.random() < 0.4          # RepairGraph appends the atoms it adds at the end of the molecule
+        at_end = rng.random() < (0.8 if rich else 0.4)          # RepairGraph appends the atoms it adds at the end of the molecule
         for nm, el, to in ptm:
             nd = {'resid': resid, 'resname': t, 'atomname': nm, 'element': el, 'mods': mods, 'ptm': True}
             if at_end:
@@ -448,7 +459,7 @@ def make_molecule_x(rng):
         edges.append((lasts[j], firsts[i]))
     if len(seq) >= 3 and rng.random() < 0.2:
         edges.append((firsts[0], lasts[-1]))
-    mode = rng.choice(['identity', 'reversed', 'sparse'])
+    mode = rng.choice(['identity', 'reversed', 'sparse'] + (['reversed', 'reversed'] if rich else []))
     n_at = len(nodes)
     if mode == 'identity':
         ids = list(range(n_at))
@@ -584,11 +595,11 @@ def _judge_x(shard):
     from . import c01_real
     work = tlc.scratch('c01x_')
     tf = tlc.write_json(work, 'trace.json', [c01_real.slim(e) for e in shard])
-    res = tlc.run('Trace_Mapping', 'SPECIFICATION Spec\n', dump=True, env={'TRACE_FILE': tf}, workdir=work, workers=1, timeout=3400)
-    return res.distinct, res.generated, {st['tid']: st['verdict'] for st in res.states() if st['verdict'] != 'pending'}, res.wall
-
-
-RESID_CLAUSES = {'residues-not-renumbered-consecutively', 'new-particle-not-in-the-residue-it-modifies'}
+    try:
+        res = tlc.run('Trace_Mapping', 'SPECIFICATION Spec\n', dump=True, env={'TRACE_FILE': tf}, workdir=work, workers=1, timeout=3400)
+        return res.distinct, res.generated, {st['tid']: st['verdict'] for st in res.states() if st['verdict'] != 'pending'}, res.wall
+    finally:
+        shutil.rmtree(work, ignore_errors=True)       # pool workers do not run the atexit clean-up of tlc.scratch
 
 
 def _adds_particle(scenario):
@@ -600,24 +611,20 @@ def _adds_particle(scenario):
     return False
 
 
-def _is_d18(kind, scenario):
-    """Known finding: a particle created by a modification mapping keeps the residue number written in the modification
-    (1 for every shipped one) and the blocks merged after it continue from that number.  Signature: the run applied a
-    modification placement that creates a particle, and the only clauses that fail are the two residue-number clauses."""
-    fails = set(scenario.get('failed_clauses') or [])
-    return kind == 'trace-rejected' and bool(fails) and fails <= RESID_CLAUSES and _adds_particle(scenario)
+def _judge_any(task):
+    if task[0] == 'cover-model':
+        return _cover_model_task(task[1])
+    return _judge(task[1]) if task[0] == 'map' else _judge_x(task[1])
 
 
-SIGNATURES = {'D18': _is_d18}
-
-
-def judge_x(events, ev, vd, stats):
+def judge_x(events, ev, vd, stats, shards=None, outs=None):
     """Shard, let TLC judge, turn verdicts into violations (one per event, listing every failed clause)."""
     if not events:
         return
-    shards = common.chunks(events, tlc.NCPU)
-    with mp.Pool(len(shards)) as pool:
-        outs = pool.map(_judge_x, shards)
+    if outs is None:
+        shards = common.chunks(events, tlc.NCPU)
+        with mp.Pool(min(len(shards), tlc.NCPU)) as pool:
+            outs = pool.map(_judge_x, shards, chunksize=1)
     for shard, (d, g, verdicts, wall) in zip(shards, outs):
         ev.states += d
         ev.transitions += g
@@ -631,7 +638,7 @@ def judge_x(events, ev, vd, stats):
                 stats.setdefault('unjudged', {}).setdefault(v[9:], 0)
                 stats['unjudged'][v[9:]] += 1
                 if e.get('err') and not e.get('raised'):
-                    vd.violation('trace-rejected', dict(e, failed_clauses=[e['err']]), '%s: %s' % (fam, e['err']))
+                    vd.violation('trace-rejected', _scenario_of(e, [e['err']]), '%s: %s' % (fam, e['err']))
                 continue
             stats.setdefault('judged', {}).setdefault(fam, 0)
             stats['judged'][fam] += 1
@@ -646,6 +653,10 @@ def judge_x(events, ev, vd, stats):
                         stats.setdefault('modification_mappings_applied', {}).setdefault(nm, 0)
                         stats['modification_mappings_applied'][nm] += 1
                 # a modification applied before a later block / before the first block
+                if _adds_particle(e):
+                    stats['runs_with_created_particle'] = stats.get('runs_with_created_particle', 0) + 1
+                if kinds[:2] == ['mod', 'mod']:
+                    stats['runs_two_mods_before_the_first_block'] = stats.get('runs_two_mods_before_the_first_block', 0) + 1
                 if any(k == 'mod' and 'block' in kinds[j + 1:] for j, k in enumerate(kinds)):
                     stats['runs_mod_before_a_block'] = stats.get('runs_mod_before_a_block', 0) + 1
                 for k in ('warn_unmapped', 'warn_overlap', 'warn_modoverlap'):
@@ -657,21 +668,134 @@ def judge_x(events, ev, vd, stats):
             if e.get('err'):
                 fails.append(e['err'])
             if fails:
-                vd.violation('trace-rejected', dict(e, failed_clauses=fails), '%s %s: %s' % (fam, e.get('label', ''), '; '.join(fails)))
+                vd.violation('trace-rejected', _scenario_of(e, fails), '%s %s: %s' % (fam, e.get('label', ''), '; '.join(fails)))
+
+
+def _scenario_of(e, fails):
+    """What goes into a replay file: enough to re-run (generator key) and to evaluate the signatures; the mappings of the
+    run are rebuilt from the key (the shipped ones are large)."""
+    sc = {k: e[k] for k in e if k not in ('mps', 'M')}
+    sc['failed_clauses'] = fails
+    sc['adds_particle'] = _adds_particle(e)
+    if e.get('family') != 'real':
+        sc['M'] = e.get('M')
+    return sc
+
+
+def _gen_task(task):
+    kind, arg = task
+    if kind == 'x':
+        return ('x', _run_chunk_x(arg))
+    from . import c01_real
+    return ('real', c01_real._real_chunk(arg))
+
+
+def _cover_model_task(tier):
+    """MC (in a pool worker): GCover against its declarative form on every small input; returns the summary and the table."""
+    consts = {'Names': '{"a", "b", "c"}', 'MaxMaps': '3'} if tier == 'quick' else {'Names': '{"a", "b", "c", "d"}', 'MaxMaps': '3'}
+    work = tlc.scratch('c01cover_')
+    try:
+        res = tlc.run('MappingCover', 'SPECIFICATION Spec\nINVARIANTS OptionsOrdered FoundIffCoverable FoundIsExactCover FoundIsFirst\n',
+                      consts=consts, dump=True, coverage=True, timeout=1700, workers=2, workdir=work)
+        rows = [([list(m['names']) for m in st['mps']], sorted(st['S']), st['res']['ok'], sorted(st['res']['sel']))
+                for st in res.states() if st['res']['done']]
+    finally:
+        shutil.rmtree(work, ignore_errors=True)
+    summary = {'ok': res.ok, 'violated': res.violated, 'distinct': res.distinct, 'generated': res.generated, 'depth': res.depth,
+               'wall': res.wall, 'coverage': dict(res.coverage)}
+    return summary, rows
+
+
+def replay_cover_table(summary, table, ev, vd):
+    """Every row of the TLC table into the real cover()."""
+    import types
+    import vermouth.processors.do_mapping as dm
+    if not summary['ok']:
+        raise tlc.MachineryError('MappingCover: GCover differs from its declarative form (%s)' % summary['violated'])
+    ev.add_tlc('MC MappingCover', types.SimpleNamespace(**summary))
+    ev.exhaustive = True
+    rows = found = multi = 0
+    for names, todo, exp_found, exp_sel in table:
+        rows += 1
+        known = {tuple(nm): j for j, nm in enumerate(names, 1)}
+        got = dm.cover(list(todo), sorted(known, key=len, reverse=True))
+        ev.traces += 1
+        ev.evaluations += 1
+        if exp_found:
+            found += 1
+            if len(exp_sel) >= 2:
+                multi += 1
+                ev.nontrivial_case([names, todo])
+        if (got is not None) != exp_found or (exp_found and {known[tuple(k)] for k in got} != set(exp_sel)):
+            vd.violation('cover-replay', {'kind': 'cover-replay', 'known': names, 'names': todo,
+                                          'expected': exp_sel if exp_found else None,
+                                          'got': None if got is None else [known[tuple(k)] for k in got]},
+                         'cover() differs from the first exact cover in option order')
+    if not rows or not found or not multi:
+        raise tlc.MachineryError('MappingCover table is vacuous (%d rows, %d coverable, %d with two or more mappings)' % (rows, found, multi))
+    ev.extra['cover_table'] = {'rows': rows, 'coverable': found, 'covers_of_two_or_more_mappings': multi}
 
 
 def run(tier, seed, ev, vd):
-    ev.rule = ('random molecules of 1-5 residues over 8 residue types (linear / branched / cyclic, numbering gaps, identity / reversed '
-               '/ sparse shuffled node keys, insertion order independent of keys, unmapped hydrogens) with 6-7 mappings. '
-               'Non-trivial = at least two placements applied; distinct by (molecule, number of mappings).')
-    ev.assumptions = ['mappings are built as Mapping objects with integer weights (the .map/.mapping grammar is C13)',
-                      'modification mappings are not generated; molecules in which two placements share their lowest atom are '
-                      'generated but not judged (order unspecified)', 'atom names are unique within a residue']
-    n = 640 if tier == 'quick' else 16000
+    from . import c01_real
+    ev.rule = ('block universe: random molecules of 1-5 residues over 8 residue types (linear / branched / cyclic, numbering gaps, '
+               'identity / reversed / sparse shuffled node keys, insertion order independent of keys, unmapped hydrogens) with 6-7 '
+               'mappings; non-trivial = at least two placements applied; distinct by (molecule, number of mappings).  '
+               'modification universe: 2-7 residues, 0-4 modifications (6 modification mappings + one without mapping), PTM atoms '
+               'inside the residue or appended at the end; real: tier-0 structures with the shipped mappings; for both non-trivial = '
+               'at least one modification placement applied, distinct by (molecule, mappings, placements applied).  cover table: '
+               'rows whose cover uses two or more mappings.')
+    ev.assumptions = ['mappings are built as Mapping objects (the .map/.mapping grammar is C13); shipped mappings are the objects '
+                      'read_mapping_directory returns',
+                      'runs in which two block placements share their lowest atom, or two modification placements share their sort '
+                      'key, are generated but not judged (order unspecified: set / dict iteration order decides)',
+                      'atom names are unique within a residue',
+                      'not generated: a modification mapping whose re-used particle does not exist (do_mapping raises ValueError) or '
+                      'is ambiguous (two particles of that name among the candidates); modifications that rename a particle '
+                      '(replace atomname) or a from-node with a LinkPredicate; mappings with disconnected from-graphs are judged '
+                      '(shipped modification mappings have them) but not generated synthetically',
+                      'the residue number of a particle created by a modification is required to be the renumbered number of a '
+                      'block-made particle that shares an input residue with its atoms; block-made particles are numbered as if '
+                      'created particles were absent',
+                      'real data: secondary structure is not annotated (DSSP / -ss only set attributes DoMapping copies); float '
+                      'weights are scaled to integers over the least common denominator of the run (tolerance 1e-9, checked); '
+                      'attribute values are compared through canonical strings (Python-equal numbers get equal strings)',
+                      "warnings required: unmapped-atom ('These atoms are not covered', \"Can't find modification mappings\"), "
+                      "inconsistent-data ('covered by multiple blocks', 'Overlapping modification mappings'); the other "
+                      'inconsistent-data warnings (garbage attributes, disconnected one-to-many, interaction set twice) are not judged']
+    quick = tier == 'quick'
+    n = 640 if quick else 16000
+    n_x = 480 if quick else 8000
+    cases = list(c01_real.REAL_CASES) + ([] if quick else list(c01_real.REAL_MORE) + [c01_real.PTYR_CASE])
+    tasks = [('real', c) for c in cases] + [('x', (n_x // tlc.NCPU, seed * 104729 + 17 * i + 3)) for i in range(tlc.NCPU)]
     with mp.Pool(tlc.NCPU) as pool:
+        async_x = pool.map_async(_gen_task, tasks, chunksize=1)
         parts = pool.map(_run_chunk, [(n // tlc.NCPU, seed * 7907 + i, False) for i in range(tlc.NCPU)])
+        gen = async_x.get()
     events = [e for p in parts for e in p]
-    stats, events = judge_events(events, ev, vd, kinds=('map',))
+    x_events, real_ev, unsupported = [], [], []
+    for kind, payload in gen:
+        if kind == 'x':
+            x_events += payload
+        else:
+            for status, val in payload:
+                if status == 'ok':
+                    real_ev += val
+                else:
+                    unsupported.append(val)
+    if unsupported:
+        raise tlc.MachineryError('real structure / shipped mapping outside the generic form: %s' % unsupported)
+    cov = cover_events(random.Random(seed * 31 + 5), 400 if quick else 8000)
+    # one pool of TLC processes for all recorded runs (the large real structures first) and for the cover model
+    sh_real = [[e] for e in real_ev]
+    sh_map = common.chunks(events, tlc.NCPU)
+    sh_x = common.chunks(x_events + cov, max(1, tlc.NCPU - len(sh_real) if quick else tlc.NCPU))
+    tasks = [('x', sh) for sh in sh_real] + [('x', sh) for sh in sh_x] + [('map', sh) for sh in sh_map] + [('cover-model', tier)]
+    with mp.Pool(tlc.NCPU) as pool:
+        outs = pool.map(_judge_any, tasks, chunksize=1)
+    cover_summary, cover_table = outs.pop()
+    o_real, o_x, o_map = outs[:len(sh_real)], outs[len(sh_real):len(sh_real) + len(sh_x)], outs[len(sh_real) + len(sh_x):]
+    stats, events = judge_events(events, ev, vd, kinds=('map',), shards=sh_map, outs=o_map)
     ev.extra['runs_by_numbering'] = stats
     ev.extra['runs_with_overlap_warning'] = sum(1 for e in events if e['warn_overlap'])
     ev.extra['runs_with_unmapped_warning'] = sum(1 for e in events if e['warn_unmapped'])
@@ -679,6 +803,47 @@ def run(tier, seed, ev, vd):
     e0 = next(e for e in events if len(e['applied']) >= 3)
     ev.sample({'kind': 'recorded DoMapping run judged by TLC', 'molecule': e0['M'], 'applied': e0['applied'], 'particles': e0['parts'],
                'edges': e0['edges']})
+
+    # --- modification universe, cover calls, real structures: generic judge
+    xstats, rstats = {}, {}
+    judge_x(x_events + cov, ev, vd, xstats, shards=sh_x, outs=o_x)
+    judge_x(real_ev, ev, vd, rstats, shards=sh_real, outs=o_real)
+    ev.extra['modification_universe'] = xstats
+    ev.extra['real_structures'] = dict(rstats, cases=[e['label'] for e in real_ev],
+                                       atoms=[len(e['M']['nodes']) for e in real_ev], mappings=[len(e['mps']) for e in real_ev],
+                                       placements=[len(e['applied']) for e in real_ev], weight_denominator=[e['wden'] for e in real_ev])
+    ev.tlc_runs.append({'run': 'TRACE Trace_Mapping (mapx: modification universe)', 'events': len(x_events)})
+    ev.tlc_runs.append({'run': 'TRACE Trace_Mapping (cover)', 'events': len(cov)})
+    ev.tlc_runs.append({'run': 'TRACE Trace_Mapping (mapx: real structures)', 'events': len(real_ev),
+                        'tlc_wall_max_s': rstats.get('tlc_wall_max')})
+    # vacuity: every feature of the new part must have been exercised
+    applied = xstats.get('modification_mappings_applied', {})
+    missing = [m for m in ('MT', 'MN', 'MN+MT', 'MP', 'MX', 'MS') if not applied.get(m)]
+    for key in ('runs_modification_without_mapping', 'warn_modoverlap', 'runs_mod_before_a_block', 'warn_unmapped',
+                'runs_two_mods_before_the_first_block'):
+        if not xstats.get(key):
+            missing.append(key)
+    if missing and not vd.violations:
+        raise tlc.MachineryError('modification universe never exercised: %s' % missing)
+    if not vd.violations:
+        if rstats.get('judged', {}).get('real', 0) != len(real_ev) or len(real_ev) < len(cases):
+            raise tlc.MachineryError('real structures: %d molecules, %s judged, %d cases' % (len(real_ev), rstats.get('judged'), len(cases)))
+        first = {'%s -> %s' % (c[0], c[1]) for c in c01_real.REAL_CASES}
+        if any(sum(1 for a in e['applied'] if a['kind'] == 'mod') < (2 if e['label'].split(' (')[0] in first else 1) for e in real_ev):
+            raise tlc.MachineryError('a real structure without its terminus modifications applied')
+        if not xstats.get('runs_with_created_particle'):
+            raise tlc.MachineryError('no run in which a modification creates a particle')
+    ex = next((e for e in x_events if sum(1 for a in e['applied'] if a['kind'] == 'mod') >= 2 and not e['err']), None)
+    if ex:
+        ev.sample({'kind': 'recorded DoMapping run with modification mappings, judged by TLC (generic form)',
+                   'atoms': [[n['id'], n['resid'], n['name'], n['mods']] for n in ex['M']['nodes']], 'bonds': ex['M']['edges'],
+                   'applied': [[a['kind'], '+'.join(ex['mps'][a['m'] - 1]['names']), a['atoms']] for a in ex['applied']],
+                   'particles': ex['parts'], 'edges': ex['edges'], 'interactions': ex['inters']})
+    replay_cover_table(cover_summary, cover_table, ev, vd)
+    er = real_ev[0]
+    ev.sample({'kind': 'real structure judged by TLC', 'case': er['label'], 'atoms': len(er['M']['nodes']),
+               'applied': [[a['kind'], '+'.join(er['mps'][a['m'] - 1]['names']), len(a['atoms'])] for a in er['applied']],
+               'particles': [[p['key'], p['atomname'], p['resid'], p['atype']] for p in er['parts']]})
 
 
 def replay(sc):
@@ -690,6 +855,25 @@ def replay(sc):
         for k in ('applied', 'parts', 'edges', 'warn_unmapped', 'warn_overlap'):
             print(k, 'now     :', rec[k])
             print(k, 'recorded:', sc[k])
+    elif sc['kind'] == 'mapx':
+        from . import c01_real
+        key = sc.get('scenario', {})
+        if 'xseed' in key:
+            e = _run_chunk_x((key['xindex'] + 1, key['xseed']))[key['xindex']]
+        else:
+            e = c01_real.real_events(tuple(key['case']))[key['molecule']]
+        d, g, verdicts, wall = _judge_x([e])
+        print('verdict now     :', verdicts.get(1), e.get('err') or '')
+        print('verdict recorded:', sc.get('failed_clauses'))
+        for k in ('applied', 'parts', 'edges', 'inters', 'warn_unmapped', 'warn_overlap', 'warn_modoverlap', 'n_nomodmap'):
+            print(k, 'now     :', e[k])
+            print(k, 'recorded:', sc.get(k))
+        return 0 if verdicts.get(1) == 'ok' and not e.get('err') else 1
+    elif sc['kind'] == 'cover-replay':
+        import vermouth.processors.do_mapping as dm
+        known = {tuple(k): j for j, k in enumerate(sc['known'], 1)}
+        got = dm.cover(list(sc['names']), sorted(known, key=len, reverse=True))
+        print('cover now:', None if got is None else [known[tuple(k)] for k in got], 'expected:', sc['expected'])
     else:
         print(sc)
     return 0
@@ -697,6 +881,8 @@ def replay(sc):
 
 def selftest(seed):
     import copy
+    import os
+    from . import c01_real
     events = [e for e in _run_chunk((30, seed, False)) if len(e['applied']) >= 2 and not e['err'] and e['edges']]
     good = events[0]
     b1 = copy.deepcopy(events[1])
@@ -708,7 +894,44 @@ def selftest(seed):
     judge_events([good, b1, b2], ev, vd)
     assert len(vd.violations) == 2, vd.violations
     print('selftest C01: tampered runs rejected:', [d.split(': ')[-1] for k, p, d in vd.violations])
-    import os
     for k, p, d in vd.violations:
         os.path.exists(p) and os.remove(p)
+    # generic form: a clean run with a particle-creating modification is accepted, each tampered copy is rejected with the
+    # clause that names the tampering
+    pool = [e for e in _run_chunk_x((80, seed + 1)) if not e['err']]
+    d, g, verdicts, wall = _judge_x(pool)
+    clean = [e for i, e in enumerate(pool, 1) if verdicts.get(i) == 'ok']
+    mp_run = next(e for e in clean if any(a['kind'] == 'mod' and e['mps'][a['m'] - 1]['names'] == ['MP'] for a in e['applied']))
+    po = next(i for i, p in enumerate(mp_run['parts']) if p['atomname'] == 'PO')
+    sc_ = next(i for i, p in enumerate(mp_run['parts']) if p['atomname'] == 'SC' and p['mods'])
+    t1 = copy.deepcopy(mp_run)
+    t1['edges'] = [x for x in t1['edges'] if t1['parts'][po]['key'] not in x]                 # bond of the new particle lost
+    t2 = copy.deepcopy(mp_run)
+    t2['parts'][sc_]['atype'] = 'TSC'                                                        # re-used particle not changed
+    t3 = copy.deepcopy(mp_run)
+    t3['inters'] = [dict(x, params=['1', '0.4', '900']) if x['params'] == ['1', '0.41', '901'] else x for x in t3['inters']]   # block bond not replaced
+    t4 = copy.deepcopy(mp_run)
+    t4['parts'][po]['cons'] = t4['parts'][po]['cons'][:-1]                                    # a PTM atom dropped from the new particle
+    t5 = copy.deepcopy(mp_run)
+    first_mod = next(i for i, a in enumerate(t5['applied']) if a['kind'] == 'mod')
+    t5['applied'][first_mod - 1], t5['applied'][first_mod] = t5['applied'][first_mod], t5['applied'][first_mod - 1]   # order
+    nomap = next(e for e in clean if e['n_nomodmap'])
+    t6 = copy.deepcopy(nomap)
+    t6['n_nomodmap'] = 0                                                                      # missing-mapping warning lost
+    real = c01_real.real_events(c01_real.REAL_CASES[0])[0]
+    t7 = copy.deepcopy(real)
+    bb = next(p for p in t7['parts'] if p['mods'])
+    bb['cons'][0][1] += 1                                                                     # one real weight off by 1/denominator
+    t8 = copy.deepcopy(real)
+    t8['applied'] = [a for a in t8['applied'] if a['kind'] != 'mod'][:len(t8['applied'])]     # modification placements not applied
+    tampered = [t1, t2, t3, t4, t5, t6, t7, t8]
+    expect = ['bond-missing', 'particle-not-changed-as-the-modification-says', 'interactions-differ', 'constituents-or-weights-differ',
+              'placements-or-their-order-differ', 'modification-without-mapping-not-reported', 'constituents-or-weights-differ',
+              'number-of-placements-differs']
+    d, g, verdicts, wall = _judge_x([mp_run, real] + tampered)
+    assert verdicts.get(1) == 'ok' and verdicts.get(2) == 'ok', (verdicts.get(1), verdicts.get(2))
+    for j, want in enumerate(expect, 3):
+        assert want in verdicts.get(j, '').split(';'), (j, want, verdicts.get(j))
+    print('selftest C01 (generic form): clean synthetic and real runs accepted; tampered runs rejected with',
+          [verdicts[j] for j in range(3, 3 + len(expect))])
     return 0
